@@ -72,6 +72,9 @@ var extraRules = map[string]func(p *Program, c *Check){
 		rulePanicType(p, c, p.requestPath(false))
 		ruleREC(p, c, p.requestPath(false))
 		ruleVAL1(p, c, p.requestPath(false))
+		// a panic raised in a spawned goroutine bypasses the handler's recover and ends the process: no goroutines,
+		// channels or process-control calls on the request path
+		ruleND1(p, c, p.requestPath(true))
 	},
 	"C05": func(p *Program, c *Check) { ruleREC(p, c, p.requestPath(false)) },
 }
